@@ -486,6 +486,49 @@ fn cmp_small_widths(seed: u64) -> serde_json::Value {
     json!({"found": false, "routine": "cmp_small_widths", "tried": tried})
 }
 
+// C17: BinaryAdd instantiated and evaluated vs. native addition: all operand pairs for widths 1..8 (powers of two), samples and corners for 16..128
+fn adder_small_widths(seed: u64) -> serde_json::Value {
+    use ciphercore_base::ops::adder::BinaryAdd;
+    let mut rng = Rng(seed | 1);
+    let mut tried = 0u64;
+    for w in [1u64, 2, 4, 8, 16, 32, 64, 128] {
+        let mask: u128 = if w == 128 { u128::MAX } else { (1u128 << w) - 1 };
+        let vals: Vec<u128> = if w <= 4 { (0..(1u128 << w)).collect() } else if w == 8 { (0..256u128).step_by(1).collect() } else {
+            let mut v: Vec<u128> = vec![0, 1, 2, mask, mask - 1, 1u128 << (w - 1), (1u128 << (w - 1)) - 1, (1u128 << (w - 1)) + 1, mask / 3, mask - mask / 3];
+            while v.len() < 24 { v.push((((rng.next() as u128) << 64) | rng.next() as u128) & mask); } v };
+        let n = vals.len() as u64;
+        let bits = |v: &Vec<u128>| -> Vec<u8> { let mut o = vec![]; for x in v { for i in 0..w { o.push(((x >> i) & 1) as u8); } } o };
+        let ta = array_type(vec![n, 1, w], BIT);
+        let tb = array_type(vec![1, n, w], BIT);
+        let va = Value::from_flattened_array(&bits(&vals), BIT).unwrap();
+        for ov in [false, true] {
+            let r = catch_unwind(AssertUnwindSafe(|| eval_custom(CustomOperation::new(BinaryAdd { overflow_bit: ov }), vec![ta.clone(), tb.clone()], vec![va.clone(), va.clone()])));
+            let r = match r { Ok(Ok(v)) => v, Ok(Err(e)) => return json!({"found": true, "routine": "adder_small_widths", "property": "C17", "input": {"width": w, "overflow_bit": ov}, "observed": format!("error: {}", e)}),
+                Err(_) => return json!({"found": true, "routine": "adder_small_widths", "property": "C17", "input": {"width": w, "overflow_bit": ov}, "observed": "panic"}) };
+            let st = array_type(vec![n, n, w], BIT);
+            let (sum_flat, ov_flat) = if ov {
+                let parts = r.to_vector().unwrap();
+                (parts[0].to_flattened_array_u64(st).unwrap(), Some(parts[1].to_flattened_array_u64(array_type(vec![n, n, 1], BIT)).unwrap()))
+            } else { (r.to_flattened_array_u64(st).unwrap(), None) };
+            for (i, x) in vals.iter().enumerate() { for (j, y) in vals.iter().enumerate() {
+                tried += 1;
+                let idx = i * n as usize + j;
+                let (full, c128) = x.overflowing_add(*y);
+                let want = full & mask;
+                let want_c: u64 = if w == 128 { c128 as u64 } else { ((full >> w) & 1) as u64 };
+                let mut got = 0u128; for b in 0..w as usize { got |= (sum_flat[idx * w as usize + b] as u128) << b; }
+                let got_c = ov_flat.as_ref().map(|f| f[idx]);
+                if want != got || (ov && got_c != Some(want_c)) {
+                    return json!({"found": true, "routine": "adder_small_widths", "property": "C17", "input": {"width": w, "overflow_bit": ov, "x": x.to_string(), "y": y.to_string()},
+                        "expected": {"sum": want.to_string(), "carry_out": want_c}, "observed": {"sum": got.to_string(), "carry_out": got_c},
+                        "what": "BinaryAdd instantiated and evaluated by SimpleEvaluator vs. native addition modulo 2^width"});
+                }
+            } }
+        }
+    }
+    json!({"found": false, "routine": "adder_small_widths", "tried": tried})
+}
+
 // C14: per-party shares reconstruct the secret, for scalars, arrays (incl. bits and 128-bit) and nested containers
 fn share_roundtrip(seed: u64) -> serde_json::Value {
     use ciphercore_base::random::PRNG;
@@ -534,6 +577,7 @@ fn main() {
         Some("arith_kernels") => arith_kernels(seed),
         Some("cmp_small_widths") => cmp_small_widths(seed),
         Some("share_roundtrip") => share_roundtrip(seed),
+        Some("adder_small_widths") => adder_small_widths(seed),
         Some("party_sim_c01") => party_sim::run(seed, "C01"),
         Some("party_sim_c02") => party_sim::run(seed, "C02"),
         Some("party_sim_c03") => party_sim::run(seed, "C03"),
